@@ -224,6 +224,7 @@ def _templates():
     T["filter"] = (2, lambda s: ["filter", s[0], s[1]])
     T["call"] = (3, lambda s: ["call", s[0], ["pos", [s[1], s[2]]]])
     T["call0"] = (1, lambda s: ["call", s[0], ["pos", []]])
+    T["notcall"] = (1, lambda s: ["call", N("not"), ["pos", [s[0]]]])
     T["callnamed"] = (2, lambda s: ["call", s[0], ["named", [["p", s[1]]]]])
     T["if"] = (3, lambda s: ["if", s[0], s[1], s[2]])
     T["for"] = (2, lambda s: ["for", [["x", "single", s[0]]], s[1]])
